@@ -30,7 +30,7 @@ BW = [0.5, 1.25]
 def bounds(tier: str) -> Dict[str, Any]:
     if tier == "quick":
         return dict(T=3, U=2, Uk=3, chunk=16)
-    return dict(T=4, U=3, Uk=4, chunk=16)
+    return dict(T=4, U=2, Uk=4, chunk=16)
 
 
 def unit_menu(T: int):
